@@ -152,6 +152,14 @@ def run(prog, rep, tier):
                         bad.append('%s at %s' % (what, body.loc(bb, si)))
             rep.ob('R20.1', not bad, key, ('%d use(s) of %s all behind its null test%s' % (len(uses), pname, ' (test in every caller)' if pre else '')) if not bad else
                    'pointer parameter %s used without a dominating null test: %s' % (pname, '; '.join(bad)), body.loc())
+            # a handle that is tested at all is tested before any success: with the non-null edges of its tests cut, no Success is reachable from the
+            # entry (an early `return Success` placed above the null tests -- e.g. for a zero length -- reports success for a null / released handle)
+            if guards and succ and not pre:
+                r0 = body.reachable(0, removed_edges=[(g[0], g[1]) for g in guards])
+                early = [body.loc(bb, i) for bb, i in succ if bb in r0]
+                rep.ob('R20.1', not early, 'R20.1|%s|param:%s|success-only-after-null-test' % (body.nkey, pname),
+                       'every Success status lies behind the null test of %s' % pname if not early else
+                       'Success can be returned without %s having been tested for null (%s)' % (pname, ', '.join(early[:3])), body.loc())
             # the null edge never reports success
             for g in guards:
                 r = body.reachable(g[2])
